@@ -135,6 +135,35 @@ std::string opReinit(const Context& ctx, const std::string& prev, const std::str
   else { text.InitFrom(cur, ctx); text.UpdateFrom(ctx); }
   return hex(text.Str()) + " " + hex(text.Raw());
 }
+// terms that refer to terms: X2's wording mentions X1; a text mentioning X2 is resolved (which asks X2 for a word form),
+// X1 is re-worded, X2 refreshed as Thesaurus::OnTermChange does, and the text resolved again: it must read as with a
+// context built from scratch with the new wording (seeded change C17-4: cached word forms survive the refresh)
+std::string opTermChain(const std::string& w1, const std::string& w1new, const std::string& tags, int rounds) {
+  const std::string t2 = "big @{X1|nomn,sing}";
+  const std::string text = "see @{X2|" + tags + "} and @{X1|" + tags + "}";
+  Context ctx;
+  ctx.Add("X1", TermSpec{ w1, {} });
+  ctx.Add("X2", TermSpec{ t2, {} });
+  ctx.terms.at("X2").UpdateFrom(ctx);
+  std::string out;
+  std::string cur = w1;
+  for (int r = 0; r < rounds; ++r) {
+    { RefsManager mgr{ ctx }; (void)mgr.Resolve(text); }                 // fills the word-form caches
+    cur = (r % 2 == 0) ? w1new : w1;
+    ctx.terms.at("X1").SetText(cur, ctx);
+    ctx.terms.at("X2").UpdateFrom(ctx);
+    RefsManager mgr{ ctx };
+    const auto got = mgr.Resolve(text);
+    Context fresh;
+    fresh.Add("X1", TermSpec{ cur, {} });
+    fresh.Add("X2", TermSpec{ t2, {} });
+    fresh.terms.at("X2").UpdateFrom(fresh);
+    RefsManager mgr2{ fresh };
+    const auto want = mgr2.Resolve(text);
+    if (got != want) return "0:round" + std::to_string(r) + ":reused[" + hex(got) + "]fresh[" + hex(want) + "]";
+  }
+  return "1";
+}
 using Subst = std::map<std::string, std::string>;
 std::string substLine(const Subst& m) {
   if (m.empty()) return "-";
@@ -325,6 +354,13 @@ void textOps(vh::Rng& rng, const std::string& text, bool clean) {
     const std::string prev = rng.chance(2, 3) ? genText(rng, true, 4) : text;
     const std::string cur = rng.chance(1, 2) ? text : rng.pick(std::vector<std::string>{ "", "plain", "a @ b { c }", "\xD0\x96 x", "@", "{X1}" });
     const int how = rng.range(0, 2);
+    {
+      const std::string w1 = rng.pick(std::vector<std::string>{ "base", "\xD0\xB1\xD0\xB0\xD0\xB7\xD0\xB0", "a b" });
+      const std::string w2 = rng.pick(std::vector<std::string>{ "core", "\xD1\x8F\xD0\xB4\xD1\x80\xD0\xBE", "" });
+      const std::string tg = rng.pick(std::vector<std::string>{ "nomn,sing", "datv,plur", "gent" });
+      const int rounds = rng.range(1, 3);
+      ops.emplace_back("c17 termchain " + hex(w1) + " " + hex(w2) + " " + hex(tg) + " " + std::to_string(rounds), [=]() { return opTermChain(w1, w2, tg, rounds); });
+    }
     ops.emplace_back("c17 mtstr " + ctx->Line() + " " + std::to_string(how) + " " + hex(prev) + " " + hex(cur), [=]() { return opReinit(*ctx, prev, cur, how); });
   }
   runGroup(ops);
